@@ -1,7 +1,7 @@
 (* C03 — property theorems: every crash point / failed write of a command whose backend
    calls follow the order discipline leaves only closed (fully readable) snapshots. *)
 From Verif.Base Require Import Tactics.
-From Verif.C03 Require Import Model Spec Proofs Proofs2 Proofs3.
+From Verif.C03 Require Import Model Spec Proofs Proofs2 Proofs3 Order ProofsOrder Extracted ProofsCmd.
 Local Open Scope N_scope.
 
 (* Crash points: if the repository is closed before the command and the command's calls
@@ -109,6 +109,183 @@ Theorem index_removed_before_rewrite_refuted :
     discipline_ok s0 log = false /\ ~ Inv (apply pre s0).
 Proof. exact index_removed_first_refuted_lemma. Qed.
 Print Assumptions index_removed_before_rewrite_refuted.
+
+
+(* ======================================================================================
+   Phase order of each command, REGENERATED from its source (Extracted.v, props/C03/extract.py),
+   as proof obligations.  `fits ps frags`: the log `concat frags` is a concatenation of
+   fragments, the i-th consisting only of backend calls the i-th phase allows.
+   The remaining hypotheses are END-state conditions (executable, evaluated on every real log):
+   ids of new files are fresh, the snapshots written are closed in the state the command leaves
+   behind, everything needed before is still readable there, no surviving index lists a
+   removed pack.  Order (static) + end state (one observation) => every crash point.
+   ====================================================================================== *)
+
+(* any phase order of the shape  writes* ; snapshot saves* ; snapshot removals* *)
+Theorem ordered_snapshot_command_in_discipline : forall ps frags s,
+  order_ok1 ps = true -> fits ps frags ->
+  freshb s (concat frags) = true -> written_snaps_closed s (concat frags) = true ->
+  discipline_ok s (concat frags) = true.
+Proof. exact snapshot_family_lemma. Qed.
+Print Assumptions ordered_snapshot_command_in_discipline.
+
+(* any phase order of the shape  [unindexed packs removed] ; writes* ; index removals* ; pack removals* *)
+Theorem ordered_removal_command_in_discipline : forall ps frags s,
+  order_ok2 ps = true -> fits ps frags ->
+  freshb s (concat frags) = true ->
+  unindexed_unlisted s (unindexed_frag ps frags) = true ->
+  needed_kept s (concat frags) = true -> removed_packs_unlisted s (concat frags) = true ->
+  discipline_ok s (concat frags) = true.
+Proof. exact removal_family_lemma. Qed.
+Print Assumptions ordered_removal_command_in_discipline.
+
+Theorem ordered_other_command_in_discipline : forall ps frags s,
+  order_ok_other ps = true -> fits ps frags -> discipline_ok s (concat frags) = true.
+Proof. exact other_family_lemma. Qed.
+Print Assumptions ordered_other_command_in_discipline.
+
+(* the executable segmentation used on the real logs yields such fragments *)
+Theorem segment_is_sound : forall ps log frags,
+  segment ps log = Some frags -> log = concat frags /\ fits ps frags.
+Proof. exact segment_sound. Qed.
+Print Assumptions segment_is_sound.
+
+(* ... and with a closed start state every prefix (crash point) of such a log is closed *)
+Theorem ordered_snapshot_command_crash_safe : forall ps frags s,
+  order_ok1 ps = true -> fits ps frags -> Inv s ->
+  freshb s (concat frags) = true -> written_snaps_closed s (concat frags) = true ->
+  forall pre post, concat frags = pre ++ post -> Inv (apply pre s).
+Proof.
+  intros ps frags s Ho Hf HI Hfr Hc. apply discipline_prefix_safe; [exact HI|].
+  apply ordered_snapshot_command_in_discipline with (ps := ps); assumption.
+Qed.
+Print Assumptions ordered_snapshot_command_crash_safe.
+Theorem ordered_removal_command_crash_safe : forall ps frags s,
+  order_ok2 ps = true -> fits ps frags -> Inv s ->
+  freshb s (concat frags) = true ->
+  unindexed_unlisted s (unindexed_frag ps frags) = true ->
+  needed_kept s (concat frags) = true -> removed_packs_unlisted s (concat frags) = true ->
+  forall pre post, concat frags = pre ++ post -> Inv (apply pre s).
+Proof.
+  intros ps frags s Ho Hf HI Hfr Hu Hk Hr. apply discipline_prefix_safe; [exact HI|].
+  apply ordered_removal_command_in_discipline with (ps := ps); assumption.
+Qed.
+Print Assumptions ordered_removal_command_crash_safe.
+
+(* backup: order of the storage-effect call sites of Archiver::archive *)
+Theorem command_order_in_discipline_backup : forall frags s,
+  fits order_backup frags ->
+  freshb s (concat frags) = true -> written_snaps_closed s (concat frags) = true ->
+  discipline_ok s (concat frags) = true.
+Proof. exact cmd_backup. Qed.
+Print Assumptions command_order_in_discipline_backup.
+
+(* copy: order of the storage-effect call sites of commands::copy::copy *)
+Theorem command_order_in_discipline_copy : forall frags s,
+  fits order_copy frags ->
+  freshb s (concat frags) = true -> written_snaps_closed s (concat frags) = true ->
+  discipline_ok s (concat frags) = true.
+Proof. exact cmd_copy. Qed.
+Print Assumptions command_order_in_discipline_copy.
+
+(* merge: order of the storage-effect call sites of merge_snapshots + merge_trees *)
+Theorem command_order_in_discipline_merge : forall frags s,
+  fits order_merge frags ->
+  freshb s (concat frags) = true -> written_snaps_closed s (concat frags) = true ->
+  discipline_ok s (concat frags) = true.
+Proof. exact cmd_merge. Qed.
+Print Assumptions command_order_in_discipline_merge.
+
+(* rewrite_trees: order of the storage-effect call sites of rewrite_snapshots_and_trees *)
+Theorem command_order_in_discipline_rewrite_trees : forall frags s,
+  fits order_rewrite_trees frags ->
+  freshb s (concat frags) = true -> written_snaps_closed s (concat frags) = true ->
+  discipline_ok s (concat frags) = true.
+Proof. exact cmd_rewrite_trees. Qed.
+Print Assumptions command_order_in_discipline_rewrite_trees.
+
+(* rewrite_meta: order of the storage-effect call sites of rewrite_snapshots *)
+Theorem command_order_in_discipline_rewrite_meta : forall frags s,
+  fits order_rewrite_meta frags ->
+  freshb s (concat frags) = true -> written_snaps_closed s (concat frags) = true ->
+  discipline_ok s (concat frags) = true.
+Proof. exact cmd_rewrite_meta. Qed.
+Print Assumptions command_order_in_discipline_rewrite_meta.
+
+(* repair_snapshots: order of the storage-effect call sites of repair_snapshots *)
+Theorem command_order_in_discipline_repair_snapshots : forall frags s,
+  fits order_repair_snapshots frags ->
+  freshb s (concat frags) = true -> written_snaps_closed s (concat frags) = true ->
+  discipline_ok s (concat frags) = true.
+Proof. exact cmd_repair_snapshots. Qed.
+Print Assumptions command_order_in_discipline_repair_snapshots.
+
+(* forget: order of the storage-effect call sites of Repository::delete_snapshots *)
+Theorem command_order_in_discipline_forget : forall frags s,
+  fits order_forget frags ->
+  freshb s (concat frags) = true -> written_snaps_closed s (concat frags) = true ->
+  discipline_ok s (concat frags) = true.
+Proof. exact cmd_forget. Qed.
+Print Assumptions command_order_in_discipline_forget.
+
+(* repair index: reduced index files and the rebuilt index are written before the replaced index
+   files are removed *)
+Theorem command_order_in_discipline_repair_index : forall frags s,
+  fits order_repair_index frags -> freshb s (concat frags) = true ->
+  unindexed_unlisted s (unindexed_frag order_repair_index frags) = true ->
+  needed_kept s (concat frags) = true -> removed_packs_unlisted s (concat frags) = true ->
+  discipline_ok s (concat frags) = true.
+Proof. exact cmd_repair_index. Qed.
+Print Assumptions command_order_in_discipline_repair_index.
+
+(* prune_repository, for EVERY option combination except the documented-unsafe
+   instant_delete + early_delete_index: the guards of the index / pack removals are part of the
+   regenerated order (prune_early_guard = the source's `let early_delete_index = ..`) *)
+Theorem command_order_in_discipline_prune : forall early_delete_index instant_delete frags s,
+  negb (early_delete_index && instant_delete) = true ->
+  fits (order_prune early_delete_index instant_delete) frags -> freshb s (concat frags) = true ->
+  unindexed_unlisted s (unindexed_frag (order_prune early_delete_index instant_delete) frags) = true ->
+  needed_kept s (concat frags) = true -> removed_packs_unlisted s (concat frags) = true ->
+  discipline_ok s (concat frags) = true.
+Proof. intros e i frags s H. exact (cmd_prune e i H frags s). Qed.
+Print Assumptions command_order_in_discipline_prune.
+
+Theorem command_order_in_discipline_config : forall frags s,
+  fits order_config frags -> discipline_ok s (concat frags) = true.
+Proof. exact cmd_config. Qed.
+Print Assumptions command_order_in_discipline_config.
+
+Theorem command_order_in_discipline_key_add : forall frags s,
+  fits order_key_add frags -> discipline_ok s (concat frags) = true.
+Proof. exact cmd_key_add. Qed.
+Print Assumptions command_order_in_discipline_key_add.
+
+Theorem command_order_in_discipline_key_delete : forall frags s,
+  fits order_key_delete frags -> discipline_ok s (concat frags) = true.
+Proof. exact cmd_key_delete. Qed.
+Print Assumptions command_order_in_discipline_key_delete.
+
+(* the hypotheses are satisfiable: the example backup and the example prune are segmented along
+   the regenerated orders and meet the end-state conditions *)
+Example command_order_backup_instance : exists frags,
+  segment order_backup ex_backup = Some frags /\ freshb ex_s0 (concat frags) = true /\
+  written_snaps_closed ex_s0 (concat frags) = true.
+Proof. eexists. split; [vm_compute; reflexivity|]. split; vm_compute; reflexivity. Qed.
+Example command_order_prune_instance : exists frags,
+  segment (order_prune false true) ex_prune = Some frags /\ freshb ex_s0 (concat frags) = true /\
+  unindexed_unlisted ex_s0 (unindexed_frag (order_prune false true) frags) = true /\
+  needed_kept ex_s0 (concat frags) = true /\ removed_packs_unlisted ex_s0 (concat frags) = true.
+Proof. eexists. split; [vm_compute; reflexivity|]. repeat split; vm_compute; reflexivity. Qed.
+Example command_order_repair_index_instance : exists frags,
+  segment order_repair_index ex_index_written_first = Some frags /\ freshb ex_s0 (concat frags) = true /\
+  unindexed_unlisted ex_s0 (unindexed_frag order_repair_index frags) = true /\
+  needed_kept ex_s0 (concat frags) = true /\ removed_packs_unlisted ex_s0 (concat frags) = true.
+Proof. eexists. split; [vm_compute; reflexivity|]. repeat split; vm_compute; reflexivity. Qed.
+(* the pre-fix order of repair snapshots is NOT a log along the regenerated order *)
+Example snapshot_first_does_not_conform : conformsb order_repair_snapshots ex_snapshot_first = false.
+Proof. vm_compute. reflexivity. Qed.
+Example index_removed_first_does_not_conform : conformsb order_repair_index ex_index_removed_first = false.
+Proof. vm_compute. reflexivity. Qed.
 
 (* the executable invariant used by the driver is the declarative one *)
 Theorem invb_is_Inv : forall s, invb s = true <-> Inv s.
